@@ -4,6 +4,9 @@ bindings are what the generator produces.
 Spec: spec/IdlGrammar.
   IdlPrograms.tla   the bounded family of VALID abstract programs as a generative state machine (TLC's simulator
                     samples it); lib/idlgen.py renders them to IDL text with identifiers from a pool.
+  IdlSignatures.tla the family of operation signatures by parameter-direction sequence (every in/out sequence up to a
+                    bound, with and without return value), enumerated exhaustively by TLC; one program per batch;
+  Oracle_Call       batch oracle for the calls made through the generated proxies and dispatchers (call transparency);
   IdlGrammar.tla    the IDL as a token-level pushdown automaton (reference for "in the language");
   Gen_IdlGrammar    TLC enumerates its configurations / viable prefixes and every transition out of them;
   Oracle_IdlGrammar batch oracle: TLC re-parses each token sequence and judges what the real binary did.
@@ -12,7 +15,11 @@ Spec: spec/IdlGrammar.
 Binding:
   (1) each batch of sampled programs goes through the tars2go binary built from the working tree (terminate, exit 0),
       one `go build` (structs, proxies, dispatchers), then the generated codecs are driven by cmd/codecdrive and judged
-      by TLC against schemas extracted from the IDL text by the independent lib/idl2schema.py;
+      by TLC against schemas extracted from the IDL text by the independent lib/idl2schema.py; every operation of every
+      generated interface is called through its generated proxy method (with context, without, one-way), looped back
+      in process into the generated Dispatch with a recording servant behind it (cmd/ifdrive adapts to the generated
+      signatures by reflection; the servants are copied from the generated servant interfaces), and TLC judges per
+      call: inputs delivered, outputs and return value handed back, servant entered once (directions from the IDL text);
   (2) one run of the binary per transition of the automaton (prefix + viable token + completion; prefix + end of
       input; prefix + non-viable token), plus random bytes, token soup and mutated valid programs: must terminate;
       in the language => exit 0 and compiling output; otherwise non-zero exit, or (lenient, logged) compiling output;
@@ -663,6 +670,21 @@ def sample_programs(ctx, n, seed, tdepth):
     return progs[:n], (int(m.group(1)) if m else 0)
 
 
+def signature_program(ctx, maxparams, rot, name):
+    """IdlSignatures.tla: TLC enumerates every parameter-direction sequence up to maxparams, with and without a return
+    value; the result is one abstract program (IdlPrograms' format) holding one operation per signature."""
+    r = tlc.run(ctx, SPEC, "IdlSignatures", cfg="Signatures.cfg", workers=1, timeout=300, name=name,
+                extra_files={"Signatures.cfg": tmpl("Signatures.cfg.tmpl", PARAMS=maxparams, ROT=rot)})
+    tlc.require_clean(r, "IdlSignatures " + name)
+    recs = tlc_json_lines(r.out)
+    skel = [x for x in recs if "skeleton" in x]
+    funcs = sorted((x for x in recs if "params" in x and "shape" in x), key=lambda f: (bool(f["ret"]), f["shape"]))
+    want = 2 * (2 ** (maxparams + 1) - 1)
+    if not skel or len(funcs) != want or r.distinct != want:
+        raise Inconclusive("IdlSignatures emitted %d signatures (%d states), expected %d" % (len(funcs), r.distinct, want))
+    return dict(skel[0]["skeleton"], funcs=funcs), r
+
+
 def write_program(d, pt):
     os.makedirs(d, exist_ok=True)
     for mod in ("A", "B"):
@@ -724,6 +746,220 @@ def stale_only(schema, sname, a, e):
         if not walk(m["ty"], x, y):
             return False
     return True
+
+
+# ----------------------------------------------------------------------------------- strict walk of a Tars field sequence
+
+class _Malformed(Exception):
+    pass
+
+
+def _head(b, p):
+    if p >= len(b):
+        raise _Malformed()
+    ty, tag = b[p] & 15, b[p] >> 4
+    if tag < 15:
+        return ty, tag, p + 1
+    if p + 1 >= len(b):
+        raise _Malformed()
+    return ty, b[p + 1], p + 2
+
+
+def _count(b, p):
+    ty, tag, p = _head(b, p)
+    w = {12: 0, 0: 1, 1: 2, 2: 4}.get(ty)
+    if tag != 0 or w is None or p + w > len(b):
+        raise _Malformed()
+    n = int.from_bytes(bytes(b[p:p + w]), "big", signed=True) if w else 0
+    if n < 0:
+        raise _Malformed()
+    return n, p + w
+
+
+def _skip(b, p, ty, depth=0):
+    """end of the field body of wire type ty starting at p, as strict as the reference (spec/TarsSchema SkipField)"""
+    if depth > 200:
+        raise _Malformed()
+    fixed = {0: 1, 1: 2, 2: 4, 3: 8, 4: 4, 5: 8, 12: 0}
+    if ty in fixed:
+        q = p + fixed[ty]
+    elif ty == 6:
+        if p >= len(b):
+            raise _Malformed()
+        q = p + 1 + b[p]
+    elif ty == 7:
+        if p + 4 > len(b):
+            raise _Malformed()
+        q = p + 4 + int.from_bytes(bytes(b[p:p + 4]), "big")
+    elif ty in (8, 9):
+        n, q = _count(b, p)
+        for _ in range(n * (2 if ty == 8 else 1)):
+            t2, _, q = _head(b, q)
+            q = _skip(b, q, t2, depth + 1)
+    elif ty == 13:
+        t2, _, q = _head(b, p)
+        if t2 != 0:
+            raise _Malformed()
+        n, q = _count(b, q)
+        q += n
+    elif ty == 10:
+        q = p
+        while True:
+            t2, _, q = _head(b, q)
+            if t2 == 11:
+                break
+            q = _skip(b, q, t2, depth + 1)
+    else:
+        raise _Malformed()
+    if q > len(b):
+        raise _Malformed()
+    return q
+
+
+def first_malformed_toplevel(b):
+    """tag of the first top-level field of a struct body that is not a well-formed Tars field (None: all are, or the walk
+    cannot tell)"""
+    p = 0
+    while p < len(b):
+        try:
+            ty, tag, q = _head(b, p)
+        except _Malformed:
+            return None
+        if ty == 11:
+            return None
+        try:
+            p = _skip(b, q, ty)
+        except _Malformed:
+            return tag
+    return None
+
+
+# ----------------------------------------------------------------------------------- generated interfaces: recording servants
+
+GO_BUILTIN = set("bool int8 uint8 int16 uint16 int32 uint32 int64 uint64 float32 float64 string map error byte int uint interface struct".split())
+IFACE_RE = re.compile(r"^type (\w+?)Servant(WithContext)? interface \{\n(.*?)^\}", re.M | re.S)
+METHOD_RE = re.compile(r"^\s*(\w+)\((.*?)\)\s*(?:\((.*)\)|(\S.*))?\s*$")
+
+
+def split_top(s):
+    """split a Go parameter list on the commas outside brackets"""
+    out, depth, cur = [], 0, ""
+    for ch in s:
+        if ch in "([{":
+            depth += 1
+        elif ch in ")]}":
+            depth -= 1
+        if ch == "," and depth == 0:
+            out.append(cur)
+            cur = ""
+        else:
+            cur += ch
+    if cur.strip():
+        out.append(cur)
+    return [x.strip() for x in out]
+
+
+def qualify(ty, pkg):
+    """a type as written inside package pkg -> as written outside it"""
+    def rep(m):
+        w = m.group(0)
+        st, en = m.span()
+        if w in GO_BUILTIN or (st > 0 and ty[st - 1] == ".") or ty[en:en + 1] == ".":
+            return w
+        return pkg + "." + w
+    return re.sub(r"[A-Za-z_]\w*", rep, ty)
+
+
+def generated_interfaces(pkgdir):
+    """The servant interfaces tars2go emitted into one package, read from the Go text:
+    {(GoInterfaceName, with_context): [(method, [param types], [result types])]} with types qualified for use outside."""
+    out = {}
+    for path in sorted(glob.glob(os.path.join(pkgdir, "*.go"))):
+        text = open(path).read()
+        m = re.search(r"^package (\w+)", text, re.M)
+        if not m:
+            continue
+        pkg = m.group(1)
+        for im in IFACE_RE.finditer(text):
+            meths = []
+            for line in im.group(3).splitlines():
+                if not line.strip() or line.strip().startswith("//"):
+                    continue
+                mm = METHOD_RE.match(line)
+                if not mm:
+                    raise Inconclusive("cannot read a method of the generated interface %s%s: %r" % (im.group(1), im.group(2) or "", line))
+                ptypes = []
+                for q in split_top(mm.group(2)):
+                    parts = q.split(None, 1)
+                    if len(parts) != 2:
+                        raise Inconclusive("cannot read a parameter of the generated interface %s: %r" % (im.group(1), line))
+                    ptypes.append(qualify(parts[1], pkg))
+                res = mm.group(3) if mm.group(3) is not None else (mm.group(4) or "")
+                rtypes = [qualify(q.split(None, 1)[-1], pkg) for q in split_top(res)]
+                meths.append((mm.group(1), ptypes, rtypes))
+            out[(im.group(1), bool(im.group(2)))] = meths
+    return out
+
+
+def servant_source(mod, ifaces):
+    """Go text of the recording servants of one module (package zzs<mod>, outside the generated package): one type per
+    generated servant interface, its methods copied from that interface, every method handing what it receives to rec.Handler."""
+    body, used = [], {"context": False}
+    for (name, withctx), meths in sorted(ifaces.items()):
+        tn = "Impl%s_%s" % ("Ctx" if withctx else "Plain", name)
+        body += ["type %s struct{ h rec.Handler }" % tn, "",
+                 "func New%s(h rec.Handler) interface{} { return &%s{h} }" % (tn, tn), "",
+                 "var _ %s.%sServant%s = (*%s)(nil)" % (mod, name, "WithContext" if withctx else "", tn), ""]
+        for meth, ptypes, rtypes in meths:
+            ps, names = [], []
+            for i, t in enumerate(ptypes):
+                if i == 0 and withctx and t == "context.Context":
+                    ps.append("zzc context.Context")
+                    continue
+                ps.append("zzp%d %s" % (i, t))
+                names.append("zzp%d" % i)
+            if not rtypes or rtypes[-1] != "error" or len(rtypes) > 2:
+                raise Inconclusive("generated servant method %s.%s has results %s" % (name, meth, rtypes))
+            if len(rtypes) == 2:
+                body += ["func (zz *%s) %s(%s) (zzr %s, zze error) {" % (tn, meth, ", ".join(ps), rtypes[0]),
+                         "\tzze = zz.h.Serve(%s, &zzr, []interface{}{%s})" % (json.dumps(meth), ", ".join(names)), "\treturn", "}", ""]
+            else:
+                body += ["func (zz *%s) %s(%s) (zze error) {" % (tn, meth, ", ".join(ps)),
+                         "\tzze = zz.h.Serve(%s, nil, []interface{}{%s})" % (json.dumps(meth), ", ".join(names)), "\treturn", "}", ""]
+    text = "\n".join(body)
+    pkgs = {mod}
+    for meths in ifaces.values():
+        for _, ptypes, rtypes in meths:
+            for t in ptypes + rtypes:
+                pkgs |= set(re.findall(r"\b([A-Za-z_]\w*)\.[A-Za-z_]", t))
+    pkgs = sorted(pkgs - {"context"})
+    head = ["// written by checks/c16.py: recording servants for the interfaces tars2go generated (not generator output)",
+            "package zzs%s" % re.sub(r"\W", "", mod), "", "import ("]
+    if "context.Context" in text:
+        head.append('\t"context"')
+    head.append('\t"verifharness/cmd/ifdrive/rec"')
+    head += ['\t%s "verifharness/gen/%s"' % (q, q) for q in pkgs]
+    head += [")", ""]
+    return "\n".join(head) + text
+
+
+def pos_class(idl, i):
+    """(direction, what stands before it) of parameter i, as Oracle_Call's Before"""
+    before = "first" if i == 0 else ("after-out" if any(a["out"] for a in idl[:i]) else "after-in")
+    return ("out-" if idl[i]["out"] else "in-") + before
+
+
+def type_class(shape):
+    if shape.count("<") >= 2:
+        return "nested-container"
+    return shape.split("<")[0]
+
+
+def fn_line(idl_text, fname):
+    for l in idl_text.splitlines():
+        if re.search(r"\b%s\s*\(" % re.escape(fname), l):
+            return l.strip()
+    return ""
 
 
 class Batch:
@@ -954,6 +1190,17 @@ class Batch:
                 # without error; which value is "the" value is not the generator's business.
                 ev["observations_duplicate_map_key"] = ev.get("observations_duplicate_map_key", 0) + 1
                 continue
+            if why == "accepts-invalid" and r["ok"] and r["panic"] == "":
+                # the malformed part lies inside a field whose tag the struct does not declare: the generated decoder never
+                # looks at it, the codec runtime skips it (SkipToNoCheck) and is more lenient about the content of what it skips
+                # than the shared reference (negative element count, a struct end as container element, ...).  The decoded
+                # value is the one "determined by the complete fields that are present"; what the runtime's skip tolerates is
+                # C05/C06's subject, not the generator's: counted, with an example, not judged here.
+                t = first_malformed_toplevel(r["bytes"])
+                if t is not None and t not in {m["tag"] for m in schema["structs"][r["s"]]}:
+                    ev["observations_malformed_content_of_skipped_undeclared_field"] = ev.get("observations_malformed_content_of_skipped_undeclared_field", 0) + 1
+                    ev.setdefault("example_malformed_skipped_field", {"struct": r["s"], "undeclared_tag": t, "bytes": r["bytes"][:80], "class": r["cls"], "note": r.get("note", "")})
+                    continue
             if why == "panic":
                 why = "panic-" + codecfam.panic_class(r["panic"])
             ctx.violate("C16:generated-codec:%s:%s%s%s" % (why, r["cls"], (":" + r["note"]) if r.get("note") else "", ":reused" if r["k"] == "decr" else ""),
@@ -964,8 +1211,177 @@ class Batch:
         ev.update({"enc_records": res["total"], "dec_records": total, "oracle_states": res["states"] + states,
                    "oracle_transitions": res["generated"] + gen, "known_codec_findings_seen": known_seen,
                    "mutant_classes": parts[3] if len(parts) > 3 else ""})
+        # ---- the generated proxies and dispatchers: call transparency
+        ev["calls"] = self.call_check(schema)
+        ev["oracle_states"] += ev["calls"].get("oracle_states", 0)
+        ev["oracle_transitions"] += ev["calls"].get("oracle_transitions", 0)
         return ev, {"ctx": b, "schema": schema, "shards": shards, "extra": extra, "enc_bad": enc_bad,
                     "texts": [self.text(k).module_text("A") for k in sorted(self.progs)]}
+
+    def call_check(self, schema):
+        """Call transparency of the generated proxies and dispatchers: every operation of every interface of the batch is
+        called through its generated proxy method (with context, without, one-way), looped back into the generated Dispatch
+        with a recording servant behind it (cmd/ifdrive); TLC (Oracle_Call) judges each call against the directions the IDL
+        text declares (read by lib/idl2schema.py)."""
+        ctx, b, h = self.ctx, self.b, self.h
+        funcs, mods = [], {}
+        for q, fs in sorted(schema["interfaces"].items()):
+            mod, name = q.split(".")
+            mods.setdefault(mod, []).append(name)
+            for f in fs:
+                funcs.append({"iface": q, "fn": f["name"], "goname": idl2schema.go_name(f["name"]), "hasret": f["ret"] is not None,
+                              "idl": [{"out": bool(a["out"]), "ty": tshape(a["ty"])} for a in f["args"]]})
+        if not funcs:
+            return {"operations": 0}
+        reg = ["// generated by checks/c16.py", "package main", "", "import ("]
+        body = []
+        for mod, names in sorted(mods.items()):
+            gi = generated_interfaces(os.path.join(h, "gen", mod))
+            want = {}
+            for name in names:
+                gn = idl2schema.go_name(name)
+                for wc in (True, False):
+                    if (gn, wc) not in gi:
+                        raise Inconclusive("no generated servant interface for %s.%s (%s)" % (mod, name, "with context" if wc else "plain"))
+                    want[(gn, wc)] = gi[(gn, wc)]
+                body.append('\tregIf(%s, func() dispatcher { return new(%s.%s) }, s_%s.NewImplCtx_%s, s_%s.NewImplPlain_%s)'
+                            % (json.dumps("%s.%s" % (mod, name)), mod, gn, mod, gn, mod, gn))
+            d = os.path.join(h, "zzservants", mod)
+            os.makedirs(d, exist_ok=True)
+            open(os.path.join(d, "servants.go"), "w").write(servant_source(mod, want))
+            reg += ['\t%s "verifharness/gen/%s"' % (mod, mod), '\ts_%s "verifharness/zzservants/%s"' % (mod, mod)]
+        reg += [")", "", "func init() {"] + body + ["}", ""]
+        open(os.path.join(h, "cmd", "ifdrive", "reg_gen.go"), "w").write("\n".join(reg))
+        t0 = time.time()
+        drv = gobuild.build(b, "ifdrive")
+        d = b.sub("calls")
+        fpath, opath = os.path.join(d, "funcs.json"), os.path.join(d, "calls.ndjson")
+        json.dump(funcs, open(fpath, "w"))
+        per = ctx.pick(6, 12)
+        rc, so, se = sh([drv, "-funcs", fpath, "-out", opath, "-per", str(per), "-seed", str(self.seed * 131 + self.bi)], timeout=900, check=False)
+        if rc != 0:
+            raise Inconclusive("ifdrive failed (%d): %s" % (rc, (so + se)[-1500:]))
+        recs = [json.loads(l) for l in open(opath)]
+        if len(recs) != per * len(funcs):
+            raise Inconclusive("ifdrive wrote %d records for %d operations x %d calls" % (len(recs), len(funcs), per))
+        drive_s = round(time.time() - t0, 2)
+        bad, classes, states, gen = self.judge_calls(recs, "calls%d" % self.bi)
+        # naming only (the verdicts are TLC's): a failure that hits (nearly) every parameter of a position class is named by
+        # the position; one that hits few of them is about the parameter's type and is named by the type's shape
+        inst, failed = {}, {}
+        for idx, r in enumerate(recs):
+            info = bad.get(idx)
+            if r["missing"] or len(r["passed"]) != len(r["idl"]) or (info and not info["at"]):
+                continue
+            for i, a in enumerate(r["idl"]):
+                if a["out"] and r["mode"] == "oneway":
+                    continue
+                pc = pos_class(r["idl"], i)
+                inst[pc] = inst.get(pc, 0) + 1
+                if info and (i + 1) in info["all"]:
+                    failed[pc] = failed.get(pc, 0) + 1
+        for idx, info in sorted(bad.items()):
+            r = recs[idx]
+            detail_class = info["pos"]
+            if info["at"] and failed.get(info["pos"], 0) < 0.6 * inst.get(info["pos"], 1):
+                detail_class = "type:" + type_class(r["idl"][info["at"] - 1]["ty"])
+            if info["v"] == "call-fails":
+                detail_class = "-".join(re.findall(r"[a-z]{2,}", r["err"].lower())[:6])
+            sig = "C16:call-transparency:%s%s" % (info["v"], (":" + detail_class) if detail_class else "")
+            at = info["at"]
+            line = fn_line(self.idl_of(r["iface"]), r["fn"])
+            if at:
+                i = at - 1
+                detail = ("parameter %d (%s, declared %s, generated as %s): the caller passed %s, the servant received %s and stored %s, the caller got %s"
+                          % (at, r["idl"][i]["ty"], "out" if r["idl"][i]["out"] else "in", "pointer" if r["genptr"][i] else "value",
+                             r["passed"][i][:60], r["received"][i][:60], r["produced"][i][:60], r["returned"][i][:60]))
+            else:
+                detail = "err=%r servant entered %s times, return value produced %s, handed back %s" % (r["err"][:120], r["implcalls"], r["retprod"][:60], r["retback"][:60])
+            ctx.violate(sig, "%s call of `%s` through the generated proxy and dispatcher: %s" % (r["mode"], line or r["fn"], detail),
+                        {"record": r, "oracle": info, "idl": self.idl_of(r["iface"]), "flags": self.flags})
+        # the spelling of a direction in Go is not part of the statement: counted, not judged
+        spell = {"in_param_generated_as_pointer": 0, "out_param_generated_as_value": 0}
+        for r in recs:
+            for a, gp in zip(r["idl"], r["genptr"]):
+                if gp and not a["out"]:
+                    spell["in_param_generated_as_pointer"] += 1
+                if a["out"] and not gp:
+                    spell["out_param_generated_as_value"] += 1
+        # binding self-test: falsified observations must be rejected, exactly those
+        good = [r for i, r in enumerate(recs) if i not in bad]
+        pick = lambda cond: next((json.loads(json.dumps(r)) for r in good if cond(r)), None)
+        other = lambda v: "[9]" if v != "[9]" else "[8]"
+        sample, expect = [], []
+        r = pick(lambda r: any(not a["out"] for a in r["idl"]))
+        if r:
+            i = next(i for i, a in enumerate(r["idl"]) if not a["out"])
+            r["received"][i] = other(r["passed"][i])
+            sample.append(r), expect.append("in-param-not-delivered")
+        r = pick(lambda r: r["mode"] != "oneway" and any(a["out"] for a in r["idl"]))
+        if r:
+            i = max(i for i, a in enumerate(r["idl"]) if a["out"])
+            r["returned"][i] = other(r["produced"][i])
+            sample.append(r), expect.append("out-param-not-returned")
+        r = pick(lambda r: r["mode"] != "oneway" and r["hasret"])
+        if r:
+            r["retback"] = other(r["retprod"])
+            sample.append(r), expect.append("return-value-not-returned")
+        r = pick(lambda r: r["mode"] == "oneway")
+        if r:
+            r["implcalls"] = 2
+            sample.append(r), expect.append("servant-not-entered-exactly-once")
+        if len(sample) == 4:
+            sample += [json.loads(json.dumps(x)) for x in good[:2]]
+            sb, _, _, _ = self.judge_calls(sample, "calls-selftest%d" % self.bi)
+            if sorted(sb) != [0, 1, 2, 3] or [sb[k]["v"] for k in range(4)] != expect:
+                raise Inconclusive("call oracle self-test failed: rejected %s, expected %s" % ({k: v["v"] for k, v in sb.items()}, expect))
+            st = {"records": len(sample), "corrupted": 4, "rejected_exactly_those": True, "verdicts": expect}
+        elif ctx.violations:
+            st = {"skipped": "not enough accepted call records to falsify; violations are reported"}
+        else:
+            raise Inconclusive("call self-test: the batch has no accepted call with an input, an output, a return value and a one-way call")
+        seqs = {"".join("o" if a["out"] else "i" for a in f["idl"]) for f in funcs}
+        need = {d + "-" + w for d in ("in", "out") for w in ("first", "after-in", "after-out")}
+        if not need <= set(classes) and not ctx.violations:
+            raise Inconclusive("call run is vacuous: position classes %s not exercised" % sorted(need - set(classes)))
+        modes = {}
+        for r in recs:
+            modes[r["mode"]] = modes.get(r["mode"], 0) + 1
+        ex = next((r for r in good if any(a["out"] for a in r["idl"]) and any(not a["out"] for a in r["idl"])), recs[0])
+        return {"operations": len(funcs), "interfaces": len(schema["interfaces"]), "calls": len(recs), "calls_by_mode": modes,
+                "rejected_by_oracle": len(bad), "direction_sequences": len(seqs), "longest_parameter_list": max(len(f["idl"]) for f in funcs),
+                "position_classes_exercised": sorted(classes), "observations_direction_spelling": spell,
+                "oracle_states": states, "oracle_transitions": gen, "build_and_drive_s": drive_s, "selftest_falsified_calls": st,
+                "sample": {"idl": fn_line(self.idl_of(ex["iface"]), ex["fn"]), "mode": ex["mode"], "passed": [x[:40] for x in ex["passed"]],
+                           "received": [x[:40] for x in ex["received"]], "produced": [x[:40] for x in ex["produced"]],
+                           "returned": [x[:40] for x in ex["returned"]]}}
+
+    def judge_calls(self, recs, name):
+        """Oracle_Call over call records.  Returns ({index0: info}, position classes, states, transitions)."""
+        d = self.b.sub(name)
+        bad, classes, states, gen = {}, set(), 0, 0
+        chunk = 4000
+        for ci in range(0, len(recs), chunk):
+            path = os.path.join(d, "recs_%d.ndjson" % ci)
+            with open(path, "w") as f:
+                for r in recs[ci:ci + chunk]:
+                    f.write(json.dumps(r) + "\n")
+            total, b1, r = oracle.judge_file(self.b, SPEC, "Oracle_Call", "OracleEnum.cfg", path, "%s-%d" % (name, ci), timeout=1200)
+            if total != len(recs[ci:ci + chunk]):
+                raise Inconclusive("call oracle judged %d of %d records" % (total, len(recs[ci:ci + chunk])))
+            js = [x for x in tlc_json_lines(r.out) if "classes" in x]
+            if not js:
+                raise Inconclusive("Oracle_Call printed no details")
+            jb = js[0]["bad"]
+            jb = {str(i + 1): v for i, v in enumerate(jb)} if isinstance(jb, list) else jb
+            if sorted(int(k) for k in jb) != sorted(b1):
+                raise Inconclusive("Oracle_Call: details do not match the rejected set")
+            for k, v in jb.items():
+                bad[ci + int(k) - 1] = v
+            classes |= set(js[0]["classes"])
+            states += max(r.distinct, 1)
+            gen += max(r.generated, 1)
+        return bad, classes, states, gen
 
     def enum_check(self):
         """The value of every generated enum constant, read from the emitted Go source, judged by Oracle_Enum."""
@@ -1113,6 +1529,8 @@ def run(ctx):
         "IdlPrograms.tla defines the valid program family; lexemes come from lib/idlgen.py pools that avoid Go keywords, predeclared names, generated method names and the generator's locals",
         "schemas of generated structs come from lib/idl2schema.py (independent of tars2go); the codec oracles are those of C03/C04/C06",
         "operational reading of 'terminates with a diagnostic': within 5 s (10 s for valid programs), and exit 0 only with output that compiles",
+        "call transparency of generated proxies/dispatchers is judged on an in-process loop (proxy -> model.Servant stub -> generated Dispatch, TARS version); the transport, filters, TUP/JSON requests are C01's / C10's; "
+        "out parameters are handed in as fresh zero values (a re-used struct is C04's recorded finding); how a direction is spelled in Go (value / pointer) is an observation, not judged",
     ]
     exe = gobuild.build_tars2go(ctx)
     # the clauses run in threads: serialise the bookkeeping of violations
@@ -1124,7 +1542,7 @@ def run(ctx):
             plain_violate(*a, **k)
 
     ctx.violate = violate
-    pool = ThreadPoolExecutor(max_workers=6)
+    pool = ThreadPoolExecutor(max_workers=8)
     fmc = pool.submit(tlc.run, ctx, SPEC, "MC_IdlGrammar", cfg="MC_IdlGrammar.cfg", workers=1, timeout=600, name="mc-grammar")
     fmc2 = pool.submit(tlc.run, ctx, SPEC, "IdlPrograms", cfg="MC_IdlPrograms.cfg", workers=2, timeout=800, name="mc-programs")
     f3 = pool.submit(clause3, ctx, exe)
@@ -1132,11 +1550,15 @@ def run(ctx):
     # ---- clause 1: sample the program family
     nprog = ctx.pick(40, 600)
     nb = ctx.pick(2, 6)
+    sigmax = ctx.pick(4, 5)
+    fsig = [pool.submit(signature_program, ctx, sigmax, ctx.seed * 7 + bi * 11, "signatures%d" % bi) for bi in range(nb)]
     progs, sim_states = sample_programs(ctx, nprog, ctx.seed, ctx.pick(2, 3))
+    sigs = [f.result() for f in fsig]
     flagsets = [[], makefile_flags()[:2] + ["-json-omitempty"]]     # the default flags / the flags the framework's own Makefile uses
     per = (nprog + nb - 1) // nb
     bpool = ThreadPoolExecutor(max_workers=2)        # at most two batches (builds, drivers, oracle JVMs) at a time
-    fb = [bpool.submit(batch, ctx, exe, bi + 1, progs[bi * per:(bi + 1) * per], flagsets[bi % 2], ctx.seed) for bi in range(nb)]
+    # every batch: its share of the sampled programs + the program of all operation signatures (own type rotation)
+    fb = [bpool.submit(batch, ctx, exe, bi + 1, progs[bi * per:(bi + 1) * per] + [sigs[bi][0]], flagsets[bi % 2], ctx.seed) for bi in range(nb)]
     f2 = pool.submit(clause2, ctx, exe)
     fraw1 = pool.submit(clause2_raw, ctx, exe, [], ["random-bytes", "token-soup"], ctx.pick(1000, 50000), "n")
 
@@ -1166,20 +1588,34 @@ def run(ctx):
     for e in bevs:
         for k, v in e.get("known_codec_findings_seen", {}).items():
             known[k] = known.get(k, 0) + v
+    cevs = [e["calls"] for e in bevs if e.get("calls", {}).get("calls")]
+    calls = sum(c["calls"] for c in cevs)
+    if not cevs and not ctx.violations:
+        raise Inconclusive("no generated proxy / dispatcher was driven")
+    sig_states = sum(r.distinct for _, r in sigs)
+    sig_trans = sum(r.generated for _, r in sigs)
     ctx.coverage = {
-        "states": rmc.distinct + rmc2.distinct + c2["gen_states"] + c2["oracle_states"] + craw["oracle_states"] + sum(e.get("oracle_states", 0) for e in bevs),
-        "transitions": rmc.generated + rmc2.generated + sim_states + c2["gen_transitions"] + c2["oracle_transitions"] + sum(e.get("oracle_transitions", 0) for e in bevs),
-        "traces_validated_against_impl": c2["runs"] + craw["raw_inputs"] + enc + dec + c3["files_compared"],
-        "samples": [c2["sample"]],
-        "evaluations": c2["runs"] + craw["raw_inputs"] + enc + dec + c3["files_compared"],
+        "states": rmc.distinct + rmc2.distinct + sig_states + c2["gen_states"] + c2["oracle_states"] + craw["oracle_states"] + sum(e.get("oracle_states", 0) for e in bevs),
+        "transitions": rmc.generated + rmc2.generated + sig_trans + sim_states + c2["gen_transitions"] + c2["oracle_transitions"] + sum(e.get("oracle_transitions", 0) for e in bevs),
+        "traces_validated_against_impl": c2["runs"] + craw["raw_inputs"] + enc + dec + calls + c3["files_compared"],
+        "samples": [c2["sample"]] + [c["sample"] for c in cevs[:1]],
+        "evaluations": c2["runs"] + craw["raw_inputs"] + enc + dec + calls + c3["files_compared"],
         "distinct_nontrivial": c2["token_tests"] + judged,
-        "rule": "clause 1: %d programs sampled by TLC's simulator from IdlPrograms (seed %d), %d batches; per generated struct type random values "
-                "-> real WriteTo/ReadFrom judged by Oracle_Schema, mutants (extra, absent, prefix, inflate, subst) judged by Oracle_Dec; "
+        "rule": "clause 1: %d programs sampled by TLC's simulator from IdlPrograms (seed %d) + one program per batch with every operation signature "
+                "enumerated by TLC from IdlSignatures, %d batches; per generated struct type random values "
+                "-> real WriteTo/ReadFrom judged by Oracle_Schema, mutants (extra, absent, prefix, inflate, subst) judged by Oracle_Dec; per generated "
+                "operation calls through the generated proxy looped back into the generated dispatcher with a recording servant, judged by Oracle_Call; "
                 "clause 2: one run of the binary per (configuration, token) of the automaton (stack depth <= %d) + raw inputs; clause 3: file-by-file diff"
                 % (nprog, ctx.seed, nb, c2["stack_depth"]),
         "mc_grammar": {"distinct": rmc.distinct, "generated": rmc.generated, "depth": rmc.depth},
         "mc_programs_tiny_instance": {"distinct": rmc2.distinct, "generated": rmc2.generated},
         "program_sampling_states": sim_states,
+        "signature_family": {"max_params": sigmax, "operations_per_batch": len(sigs[0][0]["funcs"]), "batches": nb,
+                             "states": sig_states, "what": "IdlSignatures.tla: every in/out direction sequence up to max_params, with and without return value, enumerated by TLC"},
+        "clause1_calls": {"calls": calls, "operations": sum(c["operations"] for c in cevs), "rejected_by_oracle": sum(c["rejected_by_oracle"] for c in cevs),
+                          "position_classes_exercised": sorted(set(x for c in cevs for x in c["position_classes_exercised"])),
+                          "direction_sequences_max": max([c["direction_sequences"] for c in cevs] or [0]),
+                          "selftest": [c["selftest_falsified_calls"] for c in cevs][:1]},
         "clause1_batches": bevs, "clause1_programs_judged": judged, "clause1_known_codec_findings_seen": known,
         "clause2": {k: v for k, v in c2.items() if k != "sample"}, "clause2_raw": craw,
         "clause3": c3,
